@@ -485,6 +485,7 @@ func probeSaturation() bool {
 func main() {
 	args := common.ParseArgs()
 	run := common.NewRun(args, "C30", "HV.Record.Expiry")
+	run.Shard = 120 // cases are ~1 KB each: smaller shards evaluate in parallel
 	run.Meta.Rule = "non-trivial = the history stores at least one non-zero expiry and the case issues a claim or the final reads see at least one record with an expiry"
 	rig.Quiet()
 	root, _ := os.MkdirTemp("", "c30")
